@@ -257,7 +257,7 @@ def run(prog, ctx):
             if n.kind != "stmt" or n.ast is None or n.idx not in c.reachable():
                 continue
             for x in ast.walk(n.ast):
-                if isinstance(x, ast.BinOp) and isinstance(x.op, ast.Div) and isinstance(x.right, ast.Name) and not isinstance(x.left, ast.Constant):
+                if isinstance(x, ast.BinOp) and isinstance(x.op, ast.Div) and isinstance(x.right, ast.Name) and not isinstance(x.left, (ast.Constant, ast.Call)):
                     divisor_names.add(x.right.id)
             if isinstance(n.ast, ast.AugAssign) and isinstance(n.ast.op, ast.Div) and isinstance(n.ast.value, ast.Name):
                 divisor_names.add(n.ast.value.id)
@@ -284,8 +284,37 @@ def run(prog, ctx):
                 ok = False
                 why = "`%s` divides by the integral without a dominating non-zero test" % src(x)[:60]
         defs = [b for nm in sorted(INT) for b in tm.env.bindings.get(nm, []) if b.kind == "assign"]
+        tmd = Terms(fi.node)
+        # the clipped values are those of the vector that is divided: the receiver of clip(...) and the dividend are reached by the same
+        # bindings (a positive part taken BEFORE the class-label shift normalises the shifted surpluses with the unshifted integral)
+        for (n, x) in divs:
+            dividend = x.left if isinstance(x, ast.BinOp) else x.target
+            if not isinstance(dividend, ast.Name):
+                continue
+            closure, todo = [], [b.value for b in defs]
+            seen_names = set()
+            while todo:
+                e = todo.pop()
+                closure.append(e)
+                for y in ast.walk(e):
+                    if isinstance(y, ast.Name) and y.id not in seen_names and y.id != dividend.id:
+                        seen_names.add(y.id)
+                        todo += [b2.value for b2 in tm.env.bindings.get(y.id, []) if b2.kind == "assign" and b2.value is not None]
+            for e in closure:
+                for y in ast.walk(e):
+                    if isinstance(y, ast.Call) and isinstance(y.func, ast.Attribute) and y.func.attr == "clip" and isinstance(y.func.value, ast.Name) \
+                            and y.func.value.id == dividend.id:
+                        cn, dn_ = c.node_containing(y), c.node_containing(dividend)
+                        between = [b2 for b2 in tm.env.bindings.get(dividend.id, []) if b2.kind != "param" and isinstance(b2.stmt, ast.stmt)
+                                   and c.node_of(b2.stmt) is not None and cn is not None and dn_ is not None
+                                   and c.node_of(b2.stmt) is not cn
+                                   and c.node_of(b2.stmt).idx in c.reachable_after(cn) and dn_.idx in c.reachable_after(c.node_of(b2.stmt))]
+                        if between:
+                            ok = False
+                            why = ("the positive part `%s` (line %d) is taken from another value of `%s` than the one that is divided in `%s`: "
+                                   "a re-binding of `%s` lies between them" % (src(y), y.lineno, dividend.id, src(x)[:60], dividend.id))
         for b in defs:
-            t = tm.term(b.value)
+            t = tmd.term(b.value)
             clipped = any(y[0] == "call" and y[1][0] == "a" and y[1][2] == "clip" and dict(y[3]).get("min") in (("c", "0.0"), ("c", "0")) for y in subterms(t))
             if not clipped:
                 ok = False
